@@ -148,7 +148,7 @@ def _attribute_check(pid, program, chk):
     except Exception as e:  # the control itself failed: the rule cannot be trusted
         chk.undecided("O0.2", "<positive control>", "the attribute-resolution rule does not behave as expected on its control example (%s)" % e)
         return
-    files = set(_anchor_files(pid))
+    files = set(_anchor_files(pid)) if chk.tier != "thorough" else {".py"}
     stored = set()
     for mod in program.modules.values():
         for x in _ast.walk(mod.tree):
@@ -168,8 +168,9 @@ def _attribute_check(pid, program, chk):
 
 
 def _exercise_anchor_files(pid, program, chk):
-    """interpret every function of the property's anchor files once, without hooks, only to collect O0.1 reads"""
-    files = set(_anchor_files(pid))
+    """interpret every function of the property's anchor files once, without hooks, only to collect O0.1 reads
+    (thorough tier: every function of the package)"""
+    files = set(_anchor_files(pid)) if chk.tier != "thorough" else {".py"}
     n = 0
     for fi in list(program.functions.values()):
         rel = getattr(fi.module, "relpath", "") or ""
@@ -220,6 +221,11 @@ def run_property(pid, tier, seed, repo, replay=None):
         print("ANALYSIS-ERROR property=%s rule module missing: %s" % (pid, e))
         return 2
     selftest = None
+    # thorough tier: every loop is explored one iteration further than the rule asks for (more paths, same obligations)
+    try:
+        interp.UNROLL_BONUS = int(os.environ.get("VERIF_UNROLL_BONUS", "1" if tier == "thorough" else "0"))
+    except ValueError:
+        interp.UNROLL_BONUS = 0
     interp.UNBOUND_READS.clear()
     if not _unbound_control(program):
         print("ANALYSIS-ERROR property=%s the unbound-local tracker (O0.1) does not behave as expected on its control example" % pid)
